@@ -195,6 +195,8 @@ def _decide(h, meta, cfg, r):
                         pl.append(f'(assert (= ({UFPFX}in_u64 (_ bv{k} 32)) #x{val:016x}))')
                 if pl:
                     pins.append(pl)
+                    if wit.get('native') == 'PASS':
+                        r['_pin_pass'] = pl
                 r['reach_witness'] = 'native'
             v = None
             for pl in pins + [[]]:
@@ -228,6 +230,29 @@ def _decide(h, meta, cfg, r):
                     return
                 # harness end unreachable: either the machinery is inconsistent or the code under test fails
                 # (panics) on every admitted input. The main query tells which: a reproduced model is a violation.
+        if r.get('_pin_pass') and main and 'translator_check' not in r and h['kind'] == 'normal':
+            tl = [d for d, t in vc.disj if t == 'TOL']
+            ex = [d for d, t in vc.disj if t == 'EXACT']
+            props = [d for d, t in vc.disj if t == 'prop']
+            goal = list(props)
+            if len(ex) == 1 and len(tl) == 1 and ex[0] in vc.parts and tl[0] in vc.parts:
+                goal.append(f'(and {vc.parts[ex[0]][0]} (not {vc.parts[tl[0]][1]}))')
+            elif ex:
+                goal += ex
+            if goal:
+                q = lines + r['_pin_pass'] + [f'(assert (or {" ".join(goal)} false))', '(check-sat)']
+                v, o, s = engine.run_solver(q, min(cap, 30), cfg['seed'])
+                r['queries'] += 1
+                r['solver_s'] += s
+                # unsat = the encoding evaluates this input like the native run did (every obligation met within
+                # tolerance, no panic); sat = encoding and implementation disagree on a concrete trace
+                r['translator_check'] = {'unsat': 'agree', 'sat': 'DISAGREE'}.get(v, 'inconclusive')
+                if v == 'sat':
+                    r['verdict'] = 'error'
+                    r['detail'] = 'translator validation failed: on an input where the native run meets every obligation the encoding reports a violation'
+                    r.pop('_pin_pass', None)
+                    return
+        r.pop('_pin_pass', None)
         if h['kind'] != 'mustpanic' and it.extra_obligations:
             main = [d for d, t in vc.disj if t in ('prop', 'EXACT')] + it.extra_obligations
             r['extra_obligations'] = len(it.extra_obligations)
@@ -430,6 +455,7 @@ def _reach_witness(h, work, seed):
             continue
         # FAIL counts too: natively a failed obligation stops the run, symbolically it is only recorded
         if 'RESULT: PASS' in p.stdout or 'RESULT: FAIL' in p.stdout:
+            model['native'] = 'PASS' if 'RESULT: PASS' in p.stdout else 'FAIL'
             return model
     return None
 
@@ -586,6 +612,8 @@ def write_evidence(prop, tier, seed, results, hs, cfg, wall, nviol, extra):
             solver_time_s=round(sum(r['solver_s'] for r in results), 1),
             symex_time_s=round(sum(r['symex_s'] for r in results), 1),
             symex_steps=sum(r.get('steps', 0) for r in results),
+            traces_validated_against_impl=sum(1 for r in results if r.get('translator_check') == 'agree'),
+            translator_validation='for every obligation with a native run that reaches the harness end and meets all obligations, the same concrete input is pinned in the encoding and the obligations are re-decided there: agree = unsat',
             build=extra,
             checker_cmd=f'./check {prop} --tier {tier}',
             exhaustive=False,
